@@ -93,13 +93,20 @@ class RealDecider:
         """one update() with this event queued."""
         n0 = len(self.rec.notifs)
         self.bomb.fired = False
+        ev_obj = pl.mk_event(eid, ts, kind, data)
+        before = (ev_obj.data, ev_obj.event_id, ev_obj.timestamp)
         try:
-            self.dec.on_receiver_update(pl.mk_event(eid, ts, kind, data))
+            self.dec.on_receiver_update(ev_obj)
             changed = self.dec.update()
         except Exception:
             if not self.bomb.fired:
                 return 'X'
             changed = True          # (a notification went out: there was a change; the failing sink is the harness's own)
+        # the event is the SAME object for every run, pattern, history and subscriber that gets to see it: whatever a
+        # predicate (or the code around it) does, it is still the event that came in
+        if ev_obj.data is not before[0] or ev_obj.event_id is not before[1] or ev_obj.timestamp is not before[2]:
+            return 'event-altered: after processing, the event carries data %r (%s), it came in with %r (%s)' % (
+                ev_obj.data, type(ev_obj.data).__name__, before[0], type(before[0]).__name__)
         new = self.rec.notifs[n0:]
         if len(new) > 1:
             return 'multiple-notifications'
